@@ -92,9 +92,10 @@ class FiniteRandomVariable(SingleSweep):
         prev_state = random.getstate()
         # Generate self.length random values starting with the seed
         random.seed(self.seed)
-        random_values = random.choices(
-            list(self.distribution.keys()), list(self.distribution.values()), k=self.length
-        )
+        # Sorted, so that equal sweeps yield the same values whatever the order of the dictionary
+        # (which is not preserved by the proto map used in serialization).
+        sorted_values, sorted_weights = zip(*sorted(self.distribution.items()))
+        random_values = random.choices(sorted_values, sorted_weights, k=self.length)
         # Restore the RNG state
         random.setstate(prev_state)
         return iter(random_values)
